@@ -2,6 +2,8 @@ package main
 
 import (
 	"fmt"
+	"os"
+	"time"
 	"go/types"
 	"strings"
 
@@ -112,22 +114,32 @@ func (vc *VC) render(obs []*Oblig, dialect string, timeoutMs int) string {
 	}
 	// the preamble must come after all struct sorts are known; items only reference sorts from vc.tt
 	b.WriteString(vc.tt.preamble())
-	inGroup := map[*Oblig]bool{}
-	if len(obs) > 1 {
-		for _, o := range obs {
-			inGroup[o] = true
-		}
+	// Group query: a level variable selects which obligation is refuted; an assumption made at
+	// item i is active only for obligations generated after it, so the group query is exactly the
+	// disjunction of the single queries (assumptions about later program points never help, or
+	// vacuously discharge, an earlier obligation).
+	group := len(obs) > 1
+	if group {
+		b.WriteString("(declare-const lvl!g Int)\n")
 	}
+	sorted := append([]*Oblig{}, obs...)
+	sortObligs(sorted)
+	next := 0 // index of the first obligation in sorted with itemIdx > i
 	for i := 0; i < maxIdx; i++ {
 		it := vc.items[i]
-		if it.ob != nil && inGroup[it.ob] {
-			continue
+		for next < len(sorted) && sorted[next].itemIdx <= i {
+			next++
 		}
+		txt := it.text
 		if it.kind == itCopy && dialect == "cvc5" {
-			b.WriteString(it.alt)
-		} else {
-			b.WriteString(it.text)
+			txt = it.alt
 		}
+		if group && it.kind == itAssume {
+			// (assert X) -> (assert (=> (>= lvl next) X))
+			body := strings.TrimSuffix(strings.TrimPrefix(txt, "(assert "), ")")
+			txt = fmt.Sprintf("(assert (=> (>= lvl!g %d) %s))", next, body)
+		}
+		b.WriteString(txt)
 		b.WriteByte('\n')
 	}
 	if vc.renderAllDecls {
@@ -138,15 +150,13 @@ func (vc *VC) render(obs []*Oblig, dialect string, timeoutMs int) string {
 			}
 		}
 	}
-	if len(obs) == 1 {
+	if !group {
 		o := obs[0]
 		fmt.Fprintf(&b, "(assert %s)\n(assert (not %s))\n", o.pc.S, o.goal.S)
 	} else {
-		// group query: some obligation fails. Assumption items of obligations in the
-		// group that precede others are already included above (sound: see DESIGN 2.3).
 		var ds []Term
-		for _, o := range obs {
-			ds = append(ds, mkAnd(o.pc, mkNot(o.goal)))
+		for k, o := range sorted {
+			ds = append(ds, mkAnd(Term{fmt.Sprintf("(= lvl!g %d)", k), SBool}, o.pc, mkNot(o.goal)))
 		}
 		fmt.Fprintf(&b, "(assert %s)\n", mkOr(ds...).S)
 	}
@@ -156,7 +166,14 @@ func (vc *VC) render(obs []*Oblig, dialect string, timeoutMs int) string {
 
 // verify generates and discharges the obligations of fn, inferring simple loop
 // invariants (Houdini) where the contract supplies none.
-func (P *Program) verify(fn *ssa.Function, timeoutMs int, par int, keepDir string, noInline bool) *VC {
+func (P *Program) verify(fn *ssa.Function, timeoutMs int, par int, keepDir string, noInline bool, skip map[string]bool) *VC {
+	trace := os.Getenv("VC_TRACE") != ""
+	tStart := time.Now()
+	tr := func(what string) {
+		if trace {
+			fmt.Fprintf(os.Stderr, "  [%s] %s at %v\n", fn.Name(), what, time.Since(tStart).Round(time.Millisecond))
+		}
+	}
 	autoInv := map[string][]*autoCand{}
 	vc := P.genVC(fn, genOpts{houdini: true, houdiniCheck: true, autoInv: autoInv, noInline: noInline})
 	if vc.err != nil {
@@ -178,8 +195,9 @@ func (P *Program) verify(fn *ssa.Function, timeoutMs int, par int, keepDir strin
 					cands = append(cands, o)
 				}
 			}
+			tr(fmt.Sprintf("houdini round %d: %d candidate obligations, %d items", round, len(cands), len(vc.items)))
 			sub := &VC{P: P, tt: vc.tt, items: vc.items, obligs: cands}
-			sub.discharge(3000, par, "")
+			sub.dischargeWith(2000, 8, "", []string{"z3-new", "cvc5"})
 			dropped := 0
 			for _, o := range cands {
 				if o.Status != "unsat" && !o.cand.dropped {
@@ -207,6 +225,60 @@ func (P *Program) verify(fn *ssa.Function, timeoutMs int, par int, keepDir strin
 			}
 		}
 	}
-	vc.discharge(timeoutMs, par, keepDir)
+	tr(fmt.Sprintf("final vc: %d obligations, %d items", len(vc.obligs), len(vc.items)))
+	if len(skip) > 0 {
+		var keep []*Oblig
+		for _, o := range vc.obligs {
+			if skip[obKey(o)] {
+				o.Status, o.Solver = "skipped", "not attempted (unclaimed in baseline)"
+				vc.skipped = append(vc.skipped, o)
+			} else {
+				keep = append(keep, o)
+			}
+		}
+		all := vc.obligs
+		vc.obligs = keep
+		vc.discharge(timeoutMs, par, keepDir)
+		vc.obligs = all
+	} else {
+		vc.discharge(timeoutMs, par, keepDir)
+	}
+	tr("discharged")
+	if P.contractFor(fn) != nil || vc.usedContracts {
+		vc.checkVacuity()
+	} else {
+		vc.Vacuity = "not-needed (no contract assumed)"
+	}
+	tr("vacuity")
 	return vc
+}
+
+// checkVacuity asks whether all assumptions together still admit an execution that reaches a
+// return (or a loop back edge): if not, every obligation was discharged vacuously.
+func (vc *VC) checkVacuity() {
+	if len(vc.exitReach) == 0 {
+		vc.Vacuity = "no-exit"
+		return
+	}
+	var b strings.Builder
+	b.WriteString("(set-option :smt.mbqi true)\n")
+	b.WriteString(vc.tt.preamble())
+	for _, it := range vc.items {
+		if it.ob != nil {
+			continue // goals of obligations are not assumptions of the function
+		}
+		b.WriteString(it.text)
+		b.WriteByte('\n')
+	}
+	fmt.Fprintf(&b, "(assert %s)\n(check-sat)\n", mkOr(vc.exitReach...).S)
+	q := b.String()
+	r := raceSolve(map[string]string{"z3": q}, "vacuity", 3000, false, []string{"z3-new"})
+	switch r.status {
+	case "sat":
+		vc.Vacuity = "reachable"
+	case "unsat":
+		vc.Vacuity = "VACUOUS"
+	default:
+		vc.Vacuity = "undetermined"
+	}
 }
